@@ -70,6 +70,70 @@ fn vchar_as_u8(c: char) -> (r: u8)
 { c as u8 }
 '''
 
+ALLTYPES_SHIMS = r'''
+// ---- optional value types (variant alltypes): opaque payloads ------------------------------------------------------------------
+// TRUSTED: the Display / format(..) text of a date, time, timestamp, uuid, IP network or MAC address is PLAIN: it consists of digits,
+// letters and `-`, `:`, `.`, ` `, `+`, `/` - in particular no quote, no backslash, no control character (plain_text).  Json's text is
+// ARBITRARY (object keys and strings are user data): its arm must go through the string-literal writer.
+pub open spec fn plain_char(c: char) -> bool { esc1(c) == seq![c] && c != '\'' }
+pub open spec fn plain_text(t: Seq<char>) -> bool { forall|i: int| 0 <= i < t.len() ==> plain_char(#[trigger] t[i]) }
+pub proof fn lemma_plain_maps(t: Seq<char>)
+    requires plain_text(t)
+    ensures esc_map(t) == t, dbl_map(t) == t, !t.contains('\0'), !t.contains('\\')
+    decreases t.len()
+{
+    if t.len() > 0 {
+        assert(plain_char(t[0]));
+        assert forall|i: int| 0 <= i < t.drop_first().len() implies plain_char(#[trigger] t.drop_first()[i]) by { assert(t.drop_first()[i] == t[i + 1]); }
+        lemma_plain_maps(t.drop_first());
+        assert(seq![t[0]] + t.drop_first() =~= t);
+        assert(esc_map(t) =~= t);
+        assert(dbl_map(t) =~= t) by { reveal_with_fuel(replace_char, 2); }
+    } else { assert(dbl_map(t) =~= t); }
+    assert forall|i: int| 0 <= i < t.len() implies t[i] != '\0' && t[i] != '\\' by { assert(plain_char(t[i])); }
+}
+// 'text' of a plain text is ONE string literal of every engine, decoding to the text
+pub proof fn lemma_plain_lits(t: Seq<char>)
+    requires plain_text(t)
+    ensures is_mysql_lit(seq!['\''] + t + seq!['\''], t), is_pg_lit(seq!['\''] + t + seq!['\''], t), is_sqlite_lit(seq!['\''] + t + seq!['\''], t)
+{
+    lemma_plain_maps(t);
+    lemma_is_mysql_lit(t);
+    lemma_is_sqlite_lit(t);
+    lemma_is_pg_lit(t);
+    assert(pg_lit_of(t) == seq!['\''] + t + seq!['\'']);
+}
+pub enum VTimeFmt { DATE, TIME, DATETIME, DATETIME_TZ }
+#[derive(Debug)]
+pub struct VFmtErr;
+@@OPAQUE@@
+impl<T: VDisp> VDisp for Box<T> {
+    open spec fn disp(&self) -> Seq<char> { (**self).disp() }
+    fn vdisp(&self) -> (r: String) { (**self).vdisp() }
+}
+// chrono: `v.format("%Y-%m-%d ..")` (a DelayedFormat whose Display is the formatted text): the text, PLAIN (trusted, see above)
+pub uninterp spec fn sp_chrono_text<T>(v: T, f: Seq<char>) -> Seq<char>;
+pub trait VChronoFormat: Sized { fn format(&self, f: &str) -> (r: String) ensures r@ == sp_chrono_text(*self, f@), plain_text(r@); }
+@@CHRONO@@
+// time: `v.format(FORMAT_..).unwrap()`: formatting with the crate's own descriptions succeeds; the text is PLAIN (trusted)
+pub uninterp spec fn sp_time_text<T>(v: T, f: VTimeFmt) -> Seq<char>;
+pub trait VTimeFormat: Sized { fn format(&self, f: VTimeFmt) -> (r: Result<String, VFmtErr>) ensures r is Ok, r->Ok_0@ == sp_time_text(*self, f), plain_text(r->Ok_0@); }
+@@TIME@@
+// Display of uuid / ip network / mac address: PLAIN (trusted)
+#[verifier::external_body] pub proof fn ax_plain_uuid(v: Uuid) ensures plain_text(v.disp()) {}
+#[verifier::external_body] pub proof fn ax_plain_ipnetwork(v: IpNetwork) ensures plain_text(v.disp()) {}
+#[verifier::external_body] pub proof fn ax_plain_mac(v: MacAddress) ensures plain_text(v.disp()) {}
+'''
+
+_OPQ = ["Json", "NaiveDate", "NaiveTime", "NaiveDateTime", "DateTimeUtc", "DateTimeLocal", "DateTimeFixedOffset", "TimeDate", "TimeTime", "PrimitiveDateTime", "OffsetDateTime",
+        "Uuid", "Decimal", "BigDecimal", "IpNetwork", "MacAddress"]
+ALLTYPES_SHIMS = ALLTYPES_SHIMS.replace("@@OPAQUE@@", "".join(
+    "#[verifier::external_body] pub struct %s { _o: u8 }\nimpl VDisp for %s {\n    uninterp spec fn disp(&self) -> Seq<char>;\n    #[verifier::external_body] fn vdisp(&self) -> (r: String) { unimplemented!() }\n}\n" % (t, t) for t in _OPQ))
+ALLTYPES_SHIMS = ALLTYPES_SHIMS.replace("@@CHRONO@@", "".join(
+    "impl VChronoFormat for %s { #[verifier::external_body] fn format(&self, f: &str) -> (r: String) { unimplemented!() } }\n" % t for t in _OPQ[1:7]))
+ALLTYPES_SHIMS = ALLTYPES_SHIMS.replace("@@TIME@@", "".join(
+    "impl VTimeFormat for %s { #[verifier::external_body] fn format(&self, f: VTimeFmt) -> (r: Result<String, VFmtErr>) { unimplemented!() } }\n" % t for t in _OPQ[7:11]))
+
 LIT = {"MysqlQueryBuilder": "is_mysql_lit", "PostgresQueryBuilder": "is_pg_lit", "SqliteQueryBuilder": "is_sqlite_lit"}
 NUL_OK = {"MysqlQueryBuilder": True, "PostgresQueryBuilder": False, "SqliteQueryBuilder": False}
 BLOB = {"MysqlQueryBuilder": "is_x_blob_lit", "PostgresQueryBuilder": "is_pg_bytea_lit", "SqliteQueryBuilder": "is_x_blob_lit"}
@@ -125,18 +189,34 @@ def build_c03(u, ty, files):
     # ---- value_to_string_common (text / char / bytes arms carry C03) --------------------------------
     path, blk, how = resolve(u, "QueryBuilder", ty, "value_to_string_common", QB, files["query"])
     key = "%s::value_to_string_common[%s]" % (ty, how)
+    extra_rules, extra_spec, extra_proof = [], "", ""
+    if getattr(u, "alltypes", False):
+        extra_rules = [make_r_sub("R-path", r"time_format::FORMAT_([A-Z_]+)", r"VTimeFmt::\1", min_count=0)]
+        g = "" if NUL_OK[ty] else "!j.disp().contains('\\0') ==> "
+        # Json: arbitrary text -> the literal of the text (through the string-literal writer); dates / times / uuid / network values: 'text' of a PLAIN text
+        extra_spec = "\n    *v matches Value::Json(Some(j)) ==> %s%s(r@, j.disp())," % (g, LIT[ty])
+        plain = [("ChronoDate", 'sp_chrono_text(**x, "%Y-%m-%d"@)'), ("ChronoTime", 'sp_chrono_text(**x, "%H:%M:%S"@)'), ("ChronoDateTime", 'sp_chrono_text(**x, "%Y-%m-%d %H:%M:%S"@)'),
+                 ("ChronoDateTimeUtc", 'sp_chrono_text(**x, "%Y-%m-%d %H:%M:%S %:z"@)'), ("ChronoDateTimeLocal", 'sp_chrono_text(**x, "%Y-%m-%d %H:%M:%S %:z"@)'),
+                 ("ChronoDateTimeWithTimeZone", 'sp_chrono_text(**x, "%Y-%m-%d %H:%M:%S %:z"@)'),
+                 ("TimeDate", "sp_time_text(**x, VTimeFmt::DATE)"), ("TimeTime", "sp_time_text(**x, VTimeFmt::TIME)"), ("TimeDateTime", "sp_time_text(**x, VTimeFmt::DATETIME)"),
+                 ("TimeDateTimeWithTimeZone", "sp_time_text(**x, VTimeFmt::DATETIME_TZ)"), ("Uuid", "x.disp()"), ("IpNetwork", "x.disp()"), ("MacAddress", "x.disp()")]
+        for var, txt in plain:
+            extra_spec += "\n    *v matches Value::%s(Some(x)) ==> %s(r@, %s)," % (var, LIT[ty], txt.replace("**x", "*x"))
+        arms = "".join("Value::%s(Some(x)) => { %slemma_plain_lits(%s); assert(s@ =~= seq!['\\''] + %s + seq!['\\'']); }\n        " % (
+            var, {"Uuid": "ax_plain_uuid(**x); ", "IpNetwork": "ax_plain_ipnetwork(**x); ", "MacAddress": "ax_plain_mac(**x); "}.get(var, ""), txt, txt) for var, txt in plain)
+        extra_proof = ' reveal_strlit("\'"); assert("\'"@ =~= seq![\'\\\'\']); match v { %s_ => {} }' % arms
     u.fn(path, blk, "value_to_string_common", ret="r", key=key, vpath=ty + "::value_to_string_common", props=P,
          rules=[make_r_fmt(wmap=lambda w: "&mut " + w),
                 make_r_sub("R-strfn", r"std::str::from_utf8\(&\[\*v as u8\]\)\.unwrap\(\)", "vstr_from_utf8_1(vchar_as_u8(*v)).as_str()", min_count=0),
-                make_r_sub("R-strfn", r"&v\.to_string\(\)", "v.vdisp().as_str()", min_count=0)],
-         spec="ensures\n    *v matches Value::String(Some(x)) ==> %s,\n    *v matches Value::Char(Some(c)) ==> %s,\n    *v matches Value::Bytes(Some(b)) ==> %s(r@, b@)," % (
-             lit_clause(ty, "r@", "x@"), lit_clause(ty, "r@", "seq![c]"), BLOB[ty]),
-         proofs={"after#1:};": "proof { assert(s@.subrange(0, s@.len() as int) =~= s@); }"})
+                make_r_sub("R-strfn", r"&v\.to_string\(\)", "v.vdisp().as_str()", min_count=0)] + extra_rules,
+         spec="ensures\n    *v matches Value::String(Some(x)) ==> %s,\n    *v matches Value::Char(Some(c)) ==> %s,\n    *v matches Value::Bytes(Some(b)) ==> %s(r@, b@),%s" % (
+             lit_clause(ty, "r@", "x@"), lit_clause(ty, "r@", "seq![c]"), BLOB[ty], extra_spec),
+         proofs={"after#1:};": "proof { assert(s@.subrange(0, s@.len() as int) =~= s@);%s }" % extra_proof})
     path, blk, how = resolve(u, "QueryBuilder", ty, "value_to_string", QB, files["query"])
     key = "%s::value_to_string[%s]" % (ty, how)
     u.fn(path, blk, "value_to_string", ret="r", key=key, vpath=ty + "::value_to_string", props=P,
-         spec="ensures\n    *v matches Value::String(Some(x)) ==> %s,\n    *v matches Value::Char(Some(c)) ==> %s,\n    *v matches Value::Bytes(Some(b)) ==> %s(r@, b@)," % (
-             lit_clause(ty, "r@", "x@"), lit_clause(ty, "r@", "seq![c]"), BLOB[ty]))
+         spec="ensures\n    *v matches Value::String(Some(x)) ==> %s,\n    *v matches Value::Char(Some(c)) ==> %s,\n    *v matches Value::Bytes(Some(b)) ==> %s(r@, b@),%s" % (
+             lit_clause(ty, "r@", "x@"), lit_clause(ty, "r@", "seq![c]"), BLOB[ty], extra_spec))
 
     # ---- prepare_constant: the inline position used by constants, LIKE ESCAPE, DEFAULT ... ------------
     path, blk, how = resolve(u, "QueryBuilder", ty, "prepare_constant", QB, files["query"])
@@ -168,14 +248,25 @@ def build_c03(u, ty, files):
 }'''})
 
 
-def build(u):
+ALLTYPES = ["with-json", "with-chrono", "with-time", "with-uuid", "with-rust_decimal", "with-bigdecimal", "with-ipnetwork", "with-mac_address"]
+
+
+def build(u, variant=None):
+    """variant `alltypes`: the same unit with every optional value-type feature switched on (postgres-array / postgres-vector stay off:
+    their arms use iterator adapters / float formatting): value_to_string_common's arms for Json, chrono, time, uuid, network values
+    carry C03 as well."""
+    u.alltypes = variant == "alltypes"
+    if u.alltypes:
+        u.features = set(u.features) | set(ALLTYPES)
     u.emit("use vstd::prelude::*;\nverus! {\n")
     u.prelude_file("vlib/prelude/vfmt.rs")
     u.prelude_file("vlib/prelude/vstr.rs")
     u.prelude_file("units/escape/spec.rs", props=["C17", "C03"])
     for ty in BACKENDS:
         u.emit("pub struct %s;\n" % ty)
-    u.type_item("src/value.rs", "enum", "Value", props=["C03"])
+    if u.alltypes:
+        u.spec(ALLTYPES_SHIMS, "escape::alltypes-shims", props=["C03"])
+    u.type_item("src/value.rs", "enum", "Value", props=["C03"], rules=[make_r_sub("R-path", r"DateTime<(Utc|Local|FixedOffset)>", r"DateTime\1", min_count=0), make_r_sub("R-path", r"time::(Date|Time)\b", r"Time\1", min_count=0)])
     u.spec(C03_SHIMS, "escape::c03-shims", props=["C03"])
 
     for ty, files in BACKENDS.items():
